@@ -26,7 +26,8 @@ REQUIRED_COUNTERS = ['coalition_k_ge_1_and_larger', 'refusal', 'hare', 'shared_r
                      # checklist items 10-12
                      'three_elected_one_count', 'two_on_quota_exactly', 'two_on_quota_exactly_not_accepted', 'hare_3way_remainder2',
                      'step2_tie_inside_eliminated', 'step2_tie_at_boundary', 'two_over_awarded', 'quota_below_one',
-                     'fewer_votes_than_seats', 'n_seats_zero', 'cross_selector_options']
+                     'fewer_votes_than_seats', 'n_seats_zero', 'cross_selector_options',
+                     'hare_shared_first_coalition_on_quota', 'deep_only_candidate_last_ballot_short']
 RULE = ('(audited against harness/GENERATOR_CHECKLIST.md) ranked profiles over 1-6 candidates, 1-10 ballot types, with and without shared ranks, truncated ballots, weights from a '
         'tie-forcing small set / Fractions / integers up to 10^20, all n_seats 1..#candidates, quota droop / hare, Gregory and '
         'Hare(seed) transfer (Hare with the integer droop quota), TransferableVoteSelector.evaluate; every outcome of the '
@@ -248,6 +249,8 @@ def impl(case):
         _tag(case, 'warmup_' + case.get('_warm_kind', 'x'))
     if n == 0:
         _tag(case, 'n_seats_zero')
+    if deep_only_after_last(case['votes']):
+        _tag(case, 'deep_only_candidate_last_ballot_short')
     if case['votes'] and 0 < sum(Fraction(w) for _, w in case['votes']) < n:
         _tag(case, 'fewer_votes_than_seats')
     if any(d.get('c') is not None and d.get('_k', 0) >= 3 and Fraction(d.get('_n', '0')) >= 2 for d in draws):
@@ -533,6 +536,15 @@ def _audit_directed(rng):
         yield _case(rng, [[[0], '9'], [[1, 2], '4'], [[2, 1], '3'], [[3, 2], '5']], 1, tags=['directed', 'sens_eliminate_step'], step=st)
     for mq in (False, True):
         yield _case(rng, [[[0], '5'], [[1], '2'], [[2], '1']], 2, tags=['directed', 'sens_mandatory_quota'], mandatory=mq)
+    # coalitions expressed through shared first ranks, exactly on the quota, odd pile sizes, under Hare with several seeds (and Gregory)
+    for seed in (0, 1, rng.randint(2, 9), rng.randint(10, 99)):
+        hv, S = hare_shared_coalition_profile(rng)
+        yield from _checked(_case(rng, hv, 2, method='hare', seed=seed, tags=['directed', 'hare_shared_first_coalition_on_quota']))
+    hv, S = hare_shared_coalition_profile(rng)
+    yield from _checked(_case(rng, hv, 2, tags=['directed']))
+    # a candidate named only at ranks deeper than the ballot listed last reaches
+    yield from _checked(_case(rng, deep_only_profile(rng), 3, tags=['directed']))
+    yield from _checked(_case(rng, deep_only_profile(rng), 3, method='hare', seed=rng.randint(0, 9), tags=['directed']))
     # 10. multiplicity of the rare events
     for votes, n_, opts, tags in multiplicity_cases(rng):
         keep = [t for t in tags if t in ('two_on_quota_exactly_not_accepted', 'step2_tie_at_boundary')]
